@@ -272,6 +272,12 @@ theorem isPow2_iff (x : Int) : isPow2 x = true ↔ ∃ k : Nat, x = 2 ^ k := by
     rw [htn]
     exact (Nat.and_sub_one_eq_zero_iff_isPowerOfTwo (by positivity)).mpr ⟨k, rfl⟩
 
+/-- every power of two — in particular each of the 31 legal denominators 2^0 … 2^30 of the int32 field — passes
+`_is_power_of_2`, so none of them is rejected as a bad time signature -/
+theorem isPow2_two_pow (k : Nat) : isPow2 (2 ^ k) = true := (isPow2_iff _).mpr ⟨k, rfl⟩
+
+example : isPow2 (2 ^ 29) = true ∧ isPow2 (2 ^ 30) = true ∧ isPow2 (2 ^ 29 + 1) = false := by decide
+
 /-- a genuine tempo change (or implicit change from 120 qpm) is rejected -/
 theorem quantizeRel_rejects_tempo_change (R : Rat → Rat) (c dq : Rat) (s : NoteSeq) (spq : Int)
     (h1 : ¬ tsChange s.timeSigs) (h2 : ¬ tsImplicit s.timeSigs)
